@@ -346,7 +346,7 @@ class Derivation(Constraint):
                 ok = True
                 for x in l:
                     if isinstance(x, BeforeStart):
-                        if x.ready_at <= n:
+                        if x.ready_at <= n // sustain_count:
                             ok = False
                             break
                     else:
